@@ -293,3 +293,90 @@ def c20(run):
         "--pretty for invalid input): one well-formed document, exactly one of records/errors non-null, every field of every record and "
         "entry compared with the specification's view, arithmetic relations between the fields; for invalid input the error objects "
         "against the parser's errors")
+
+
+def bookmarks_post(ev):
+    """decode the database file after every step with Python's json (independent of the code under test)"""
+    o = ev.get("obs", {})
+    w = o.get("workdir", "")
+    for st in o.get("steps", []):
+        raw = st.get("bookmarks", "")
+        st["db_ok"] = True
+        st["db"] = []
+        if raw.strip():
+            try:
+                v = json.loads(raw)
+                assert isinstance(v, list) and all(isinstance(x, dict) and set(x) == {"name", "path"} for x in v)
+                st["db"] = v
+            except Exception:
+                st["db_ok"] = False
+        st.pop("files", None)
+        st.pop("bookmarks", None)
+    for c in ev.get("case", {}).get("files", {}):
+        pass
+    ev["case"].pop("files", None)
+    return ev
+
+
+@check("C19", "Trace_Bookmarks")
+def c19(run):
+    cases, r = run.mc("MC_Bookmarks", {})
+    obs = run.drive(cases)
+    run.postprocess(obs, bookmarks_post)
+    flagged = run.judge("Trace_Bookmarks", obs, chunk=1500)
+    run.assumptions = ["histories run in one process per history through the real entry point klog.Run (one context per command); "
+                       "the database file is decoded with Python's json module"]
+    return vlib.finish(run, flagged, rule_text="all histories of set / set-default / unset / clear up to the tier's depth over 10 name spellings "
+        "(with/without @, @@, empty, default, Unicode, spaces, quotes) and 4 target files (space, quote, non-ASCII in the name), with list, info "
+        "and bookmark resolution (`klog total @name`, `klog total`) after every step; quick tier: depth 3 with a seed-rotated third of the "
+        "operations after the first step")
+
+
+@check("C07", "Trace_Parse")
+def c07(run):
+    # (1) the concurrent skeleton: every interleaving of N workers, closer and collector
+    n = 6 if run.tier == "thorough" else 5
+    for cfg in (["MC_Parallel4", "MC_Parallel5"] + (["MC_Parallel6"] if run.tier == "thorough" else [])):
+        r = run.tlc("KParallel", cfg=cfg, env={}, timeout=3000)
+        if r["inv_violated"] or "is violated" in str(r.get("fatal")):
+            raise vlib.Infra("KParallel violates its own invariants under %s" % cfg)
+        run.states += r["distinct"]
+        run.transitions += r["generated"]
+        run.mc_runs.append({"module": "KParallel/" + cfg, "states_generated": r["generated"], "distinct_states": r["distinct"], "wall_s": r["wall_s"]})
+        log("MC KParallel %s: %d generated / %d distinct" % (cfg, r["generated"], r["distinct"]))
+    w = run.tlc("KParallel", cfg="MC_ParallelBug", env={}, timeout=600)
+    if "ByIndex" not in w["inv_violated"]:
+        raise vlib.Infra("non-vacuity witness failed: storing by arrival does not violate ByIndex")
+    run.extra["nonvacuity_witness"] = "StoreByArrival=TRUE violates ByIndex at N=3"
+    # (2) the data flow: all short byte strings x all worker counts at spec level, replayed into the real parsers
+    cases, r = run.mc("MC_Chunks", {})
+    # (3) generated documents and mutants with several worker counts
+    cases2, r2 = run.mc("MC_Parse", {"KV_WANT": "all"}, out_name="cases2.ndjson")
+    sched = []
+    with open(cases, "a", encoding="utf-8") as f:
+        for i, l in enumerate(open(cases2, encoding="utf-8")):
+            c = json.loads(l)
+            if run.tier == "quick" and (i + run.seed) % 3 != 0:
+                continue
+            L = len(c["text"].encode("utf-8"))
+            c["workers"] = sorted(set([2, 3, 5, 8, 13, L + 1] + [w for w in (L // 2, L - 1, L) if w > 0]))
+            f.write(json.dumps(c, ensure_ascii=False) + "\n")
+            if (i + run.seed) % (40 if run.tier == "quick" else 8) == 0:
+                for nn in ((2, 3, 4) if run.tier == "quick" else (2, 3, 4, 5)):
+                    sched.append({"kind": "parsched", "text": c["text"], "n": nn, "natural": 3})
+        for c in sched:
+            f.write(json.dumps(c, ensure_ascii=False) + "\n")
+        # one heavy case: every arrival order for 6 workers (720) on a multi-record document
+        if run.tier == "thorough":
+            for c in sched[:40]:
+                f.write(json.dumps(dict(c, n=6), ensure_ascii=False) + "\n")
+    obs = run.drive(cases, case_timeout=600)
+    flagged = run.judge("Trace_Parse", obs, env={"KV_RULES": "C07"}, chunk=20000)
+    run.assumptions = ["the order in which goroutines deliver their results is forced through hook H2 (all permutations up to the tier's N); "
+                       "natural schedules are observed, not enumerated",
+                       "natural-schedule traces are validated against the projection of KParallel on its send/receive steps"]
+    return vlib.finish(run, flagged, rule_text="(1) PlusCal model KParallel of workers/closer/collector model-checked for N=4,5 (thorough 6) incl. "
+        "termination under fairness, with a bug witness; (2) KChunks: split/batch/merge on all byte strings up to length 6 (thorough 8) over "
+        "{text, blank, LF, CR, 2-byte lead, continuation, invalid} x every worker count, spec-level equivalence with serial segmentation, each "
+        "text replayed into the real parsers; (3) generated documents and mutants x worker counts {2,3,5,8,13,len/2,len-1,len,len+1}; "
+        "(4) every arrival order of the batch results forced through hook H2 for N<=4 (thorough 6) and natural schedules under GOMAXPROCS 1/4/16")
